@@ -14,4 +14,6 @@ done
 # go1.26.8 race build used by the concurrency checks (this warms that toolchain's build cache)
 go test -count=1 ./subjectlib/vref/ -rapid.checks=1500 -rapid.nofailfile >/dev/null
 GOTOOLCHAIN=local go1.26.8 test -race -count=1 ./subjectlib/vref/ -rapid.checks=200 -rapid.nofailfile >/dev/null
+# the model scheduler against real channels (differential) and against a known-buggy join
+go test -count=1 ./subjectlib/sched/ -run 'TestDifferentialNonBlocking|TestExploreJoinPOR' -rapid.checks=2000 -rapid.nofailfile >/dev/null
 echo "setup ok"
